@@ -100,6 +100,11 @@ pub struct Medium {
     /// (`flat.rs`). Read faults, which are about records and keys, do not apply.
     #[serde(default)]
     pub untyped: bool,
+    /// positional framing only: the end of a record is visible on the wire (a JSON or MessagePack
+    /// array): a reader asking for more elements than there are is told "no more" instead of
+    /// running off the end
+    #[serde(default)]
+    pub clean_end: bool,
 }
 
 impl Medium {
@@ -113,6 +118,7 @@ impl Medium {
         filter_fields: false,
         check_names: false,
         untyped: false,
+        clean_end: false,
     };
     pub fn flat(&self) -> bool {
         self.framing == Framing::Positional && self.untyped
@@ -130,6 +136,7 @@ impl Medium {
             | (self.filter_fields as u64) << 10
             | (self.check_names as u64) << 11
             | (self.untyped as u64) << 12
+            | (self.clean_end as u64) << 13
     }
 }
 
